@@ -74,10 +74,16 @@ func Mixed(t *rapid.T, maxOps int) (int, []hist.Op) {
 	names := []string{"a", "b", "c", "units", "twelve_chars", "a_rather_long_attribute_name_to_fill_space", "d", "e", "f", "g", "h", "i", "j", "k"}
 	links := 0
 	withSoft := rapid.IntRange(0, 2).Draw(t, "withSoftExtDense") == 0
+	reopens := rapid.SampledFrom([]int{0, 0, 1, 2}).Draw(t, "reopens")
 	for i := 0; i < n; i++ {
 		k := rapid.SampledFrom([]string{"dataset", "dataset", "group", "write", "write", "attr", "attr", "attr", "attr", "delattr", "resize", "hard", "soft", "ext", "dense", "attrburst"}).Draw(t, "k")
 		if len(objs) == 0 && k != "group" {
 			k = "dataset"
+		}
+		if reopens > 0 && len(objs) > 0 && rapid.IntRange(0, 19).Draw(t, "reopenHere") == 0 {
+			// a session boundary: Close, OpenForWrite, dataset handles through OpenDataset
+			reopens--
+			c.Ops = append(c.Ops, hist.Op{K: "reopen"})
 		}
 		parent := groups[rapid.IntRange(0, len(groups)-1).Draw(t, "parent")]
 		join := func(name string) string {
